@@ -45,9 +45,9 @@ def check_case(case):
         sol = run.solve()
     except BaseException as e:                 # noqa
         err = repr(e)
-    if err or run.printed_exception or run.runaway:
-        vs.append(oc.violation(PROP, case, "no-internal-error", {"raised": err, "printed_marker": run.printed_exception,
-                                                                 "runaway": run.runaway}))
+    if run.trouble(err):
+        vs.append(oc.violation(PROP, case, "no-internal-error", run.trouble(err)))
+    info["float_collapse"] = bool(run.collapsed)
     lower, upper = case["lower"], case["upper"]
     nbad = 0
     for j, e in enumerate(run.problem.log):
@@ -93,7 +93,7 @@ def gen(r):
 
 
 def run(tier, r):
-    ncases = 1000 if tier == "quick" else 16000
+    ncases = 3000 if tier == "quick" else 42000
     vs, stats, samples, keys = [], {}, [], set()
     nontrivial = explored = 0
     for i in range(ncases):
@@ -105,6 +105,7 @@ def run(tier, r):
         oc.bump(stats, "kind_" + case["spec"]["kind"])
         oc.bump(stats, "refine_true" if case["refine"] else "refine_false")
         oc.bump(stats, "global_points", info.get("trials", 0))
+        oc.bump(stats, "float_collapse_stops", 1 if info.get("float_collapse") else 0)
         oc.bump(stats, "local_points", info.get("local", 0))
         oc.bump(stats, "refinement_improved", 1 if info.get("improved") else 0)
         key = oc.case_key(case)
